@@ -854,6 +854,13 @@ func (b *build) raceRun(seed int64, tier string, nw int, outDir string) ([]raceR
 			return nil, info, "racer process failed: " + r.err.Error() + "\n" + tail(r.out, 1500)
 		}
 	}
+	stuck := 0
+	for _, r := range results {
+		stuck += strings.Count(r.out, "GSIM-STUCK ")
+	}
+	if stuck > 0 {
+		info["processes_stopped_at_a_stuck_world"] = stuck
+	}
 	info["race_reports"] = nReports
 	info["distinct_race_signatures"] = len(recs)
 	return recs, info, ""
